@@ -634,3 +634,372 @@ Proof.
         destruct H as [H|[]]. inversion H. repeat split; try assumption. discriminate.
     + intros (_ & P & ->). do 4 right. rewrite (proj2 (Z.ltb_lt _ _)) by exact P. left. reflexivity.
 Qed.
+
+(* ====================================================================== *)
+(* G. the matrix: announced set-up x client rendering                     *)
+(* ====================================================================== *)
+(* Each part of the feedback reads a few coordinates only; the case analysis is over those
+   coordinates (9 + 42 + 28 + 504 + 9 + 14 cases), the others stay symbolic. *)
+Section Matrix.
+Variables (fq : Z -> Z -> Z) (name : bytes).
+
+Lemma m_ver e a : ver_part (with_expect name e (render a)) = fb_version e (project a).
+Proof.
+  destruct e as [ev eg ep ec ez et], a as [av ash ac az at_].
+  destruct ev, av; vm_compute; reflexivity.
+Qed.
+
+Lemma m_pro e a :
+  pro_part fq (with_expect name e (render a)) =
+  (None, fb_protocol e (project a), with_expect name e (render a)).
+Proof.
+  destruct e as [ev eg ep ec ez et], a as [av ash ac az at_].
+  destruct ep, ash, ac; vm_compute; reflexivity.
+Qed.
+
+Lemma m_cod e a : cod_part (with_expect name e (render a)) = fb_codec e (project a).
+Proof.
+  destruct e as [ev eg ep ec ez et], a as [av ash ac az at_].
+  destruct ec, ash, ac; vm_compute; reflexivity.
+Qed.
+
+Lemma m_cmp e a : cmp_part (with_expect name e (render a)) = fb_compression e (project a).
+Proof.
+  destruct e as [ev eg ep ec ez et], a as [av ash ac az at_].
+  destruct ez, ash, ac, az; vm_compute; reflexivity.
+Qed.
+
+Lemma m_tls e a : check_tls (with_expect name e (render a)) = fb_tls e (project a).
+Proof.
+  destruct e as [ev eg ep ec ez et], a as [av ash ac az at_].
+  destruct et, at_; vm_compute; reflexivity.
+Qed.
+
+Lemma m_met e a : check_method (with_expect name e (render a)) = fb_method e (project a).
+Proof.
+  destruct e as [ev eg ep ec ez et], a as [av ash ac az at_].
+  destruct eg, ash; vm_compute; reflexivity.
+Qed.
+
+Lemma m_trl e a : trl_part (with_expect name e (render a)) = [].
+Proof. reflexivity. Qed.
+
+Lemma matrix_feedback_exact_proof e a : name <> [] ->
+  checks fq [] (with_expect name e (render a)) =
+  ([(name, 1)], Served name (expected_feedback e (project a)) None (with_expect name e (render a))).
+Proof.
+  intros NE. rewrite checks_served by (cbn; exact NE).
+  change (name_of (with_expect name e (render a))) with name.
+  unfold served. rewrite m_pro, m_ver, m_cod, m_cmp, m_tls, m_met, m_trl.
+  unfold expected_feedback. rewrite app_nil_r. reflexivity.
+Qed.
+End Matrix.
+
+(* ---------- what the exact lines say, aspect by aspect ---------- *)
+Lemma fb_version_nil e a : fb_version e a = [] <-> a_version e = a_version a.
+Proof. unfold fb_version. destruct (a_version e), (a_version a); cbn; split; congruence. Qed.
+Lemma fb_protocol_nil e a : fb_protocol e a = [] <-> a_protocol e = a_protocol a.
+Proof. unfold fb_protocol. destruct (a_protocol e), (a_protocol a); cbn; split; congruence. Qed.
+Lemma fb_codec_nil e a : fb_codec e a = [] <-> a_codec e = a_codec a.
+Proof. unfold fb_codec. destruct (a_codec e), (a_codec a); cbn; split; congruence. Qed.
+Lemma fb_compression_nil e a : fb_compression e a = [] <-> a_compression e = a_compression a.
+Proof. unfold fb_compression. destruct (a_compression e), (a_compression a); cbn; split; congruence. Qed.
+Lemma fb_tls_nil e a : fb_tls e a = [] <-> a_tls e = a_tls a.
+Proof. unfold fb_tls. destruct (a_tls e), (a_tls a); vm_compute; split; congruence. Qed.
+Lemma fb_method_nil e a : fb_method e a = [] <-> a_get e = a_get a.
+Proof. unfold fb_method. destruct (a_get e), (a_get a); cbn; split; congruence. Qed.
+
+Lemma expected_feedback_nil e a : expected_feedback e a = [] <-> a = e.
+Proof.
+  unfold expected_feedback. split.
+  - intros H.
+    apply app_eq_nil in H as [H1 H]. apply app_eq_nil in H as [H2 H]. apply app_eq_nil in H as [H3 H].
+    apply app_eq_nil in H as [H4 H]. apply app_eq_nil in H as [H5 H6].
+    apply fb_version_nil in H1. apply fb_protocol_nil in H2. apply fb_codec_nil in H3.
+    apply fb_compression_nil in H4. apply fb_tls_nil in H5. apply fb_method_nil in H6.
+    destruct e, a; cbn in *; congruence.
+  - intros ->.
+    rewrite (proj2 (fb_version_nil e e)), (proj2 (fb_protocol_nil e e)), (proj2 (fb_codec_nil e e)),
+      (proj2 (fb_compression_nil e e)), (proj2 (fb_tls_nil e e)), (proj2 (fb_method_nil e e)); reflexivity.
+Qed.
+
+(* each part only carries lines of its own aspect(s), and carries one exactly when that aspect deviates *)
+Lemma nil_asp A : (exists k, In k [] /\ aspect_of k = Some A) <-> False.
+Proof. split; [intros (k & [] & _)|tauto]. Qed.
+Lemma single_asp K A : (exists k, In k [K] /\ aspect_of k = Some A) <-> aspect_of K = Some A.
+Proof. split; [intros (k & [<-|[]] & H); exact H|intros H; exists K; split; [left; reflexivity|exact H]]. Qed.
+Lemma single_if (c : bool) K A :
+  (exists k, In k (if c then [] else [K]) /\ aspect_of k = Some A) <-> c = false /\ aspect_of K = Some A.
+Proof.
+  destruct c; [rewrite nil_asp|rewrite single_asp]; split; try tauto. intros [H _]; discriminate.
+Qed.
+
+Lemma fb_version_asp e a A :
+  (exists k, In k (fb_version e a) /\ aspect_of k = Some A) <-> A = AVersion /\ deviates AVersion e a.
+Proof.
+  unfold fb_version, deviates. rewrite single_if. cbn [aspect_of].
+  destruct (a_version e), (a_version a); cbn; split; intros [H1 H2]; split; congruence.
+Qed.
+Lemma fb_protocol_asp e a A :
+  (exists k, In k (fb_protocol e a) /\ aspect_of k = Some A) <-> A = AProtocol /\ deviates AProtocol e a.
+Proof.
+  unfold fb_protocol, deviates. rewrite single_if. cbn [aspect_of].
+  destruct (a_protocol e), (a_protocol a); cbn; split; intros [H1 H2]; split; congruence.
+Qed.
+Lemma fb_codec_asp e a A :
+  (exists k, In k (fb_codec e a) /\ aspect_of k = Some A) <-> A = ACodec /\ deviates ACodec e a.
+Proof.
+  unfold fb_codec, deviates. rewrite single_if. cbn [aspect_of].
+  destruct (a_codec e), (a_codec a); cbn; split; intros [H1 H2]; split; congruence.
+Qed.
+Lemma fb_compression_asp e a A :
+  (exists k, In k (fb_compression e a) /\ aspect_of k = Some A) <-> A = ACompression /\ deviates ACompression e a.
+Proof.
+  unfold fb_compression, deviates. rewrite single_if. cbn [aspect_of].
+  destruct (a_compression e), (a_compression a); cbn; split; intros [H1 H2]; split; congruence.
+Qed.
+Lemma fb_method_asp e a A :
+  (exists k, In k (fb_method e a) /\ aspect_of k = Some A) <-> A = AMethod /\ deviates AMethod e a.
+Proof.
+  unfold fb_method, deviates. rewrite single_if. cbn [aspect_of].
+  destruct (a_get e), (a_get a); cbn; split; intros [H1 H2]; split; congruence.
+Qed.
+Lemma fb_tls_asp e a A :
+  (exists k, In k (fb_tls e a) /\ aspect_of k = Some A) <->
+  (A = ATls /\ deviates ATls e a) \/ (A = ACert /\ deviates ACert e a).
+Proof.
+  unfold fb_tls, deviates.
+  destruct (a_tls e), (a_tls a); cbn -[In]; rewrite ?nil_asp, ?single_asp; cbn [aspect_of];
+    (split; [intros H; try contradiction; inversion H; subst;
+             first [left; split; congruence | right; repeat split; congruence]
+            |intros [[-> H]|[-> (H1 & H2 & H3)]]; congruence]).
+Qed.
+
+Lemma ex_in_app (P : kind -> Prop) x y :
+  (exists k, In k (x ++ y) /\ P k) <-> (exists k, In k x /\ P k) \/ (exists k, In k y /\ P k).
+Proof.
+  split.
+  - intros (k & I & H). apply in_app_or in I as [I|I]; [left|right]; exists k; auto.
+  - intros [(k & I & H)|(k & I & H)]; exists k; split; auto; apply in_or_app; auto.
+Qed.
+
+Lemma expected_asp e a A :
+  (exists k, In k (expected_feedback e a) /\ aspect_of k = Some A) <-> deviates A e a.
+Proof.
+  unfold expected_feedback. rewrite !ex_in_app.
+  rewrite fb_version_asp, fb_protocol_asp, fb_codec_asp, fb_compression_asp, fb_tls_asp, fb_method_asp.
+  destruct A; split; intros H; try tauto;
+    repeat match goal with
+           | H : _ \/ _ |- _ => destruct H as [H|H]
+           | H : _ = _ /\ _ |- _ => destruct H as [? H]
+           end; try discriminate; try assumption.
+Qed.
+
+Definition has_aspect (k : kind) : bool := match aspect_of k with Some _ => true | None => false end.
+Lemma expected_all_aspect e a : forallb has_aspect (expected_feedback e a) = true.
+Proof.
+  unfold expected_feedback. rewrite !forallb_app.
+  unfold fb_version, fb_protocol, fb_codec, fb_compression, fb_tls, fb_method.
+  repeat (apply andb_true_intro; split).
+  - destruct (_ =? _); reflexivity.
+  - destruct (_ =? _); reflexivity.
+  - destruct (_ =? _); reflexivity.
+  - destruct (_ =? _); reflexivity.
+  - destruct (tls_on (a_tls e)), (tls_on (a_tls a)); try reflexivity. destruct (bytes_eqb _ _); reflexivity.
+  - destruct (Bool.eqb _ _); reflexivity.
+Qed.
+
+Section MatrixTheorems.
+Variables (fq : Z -> Z -> Z) (name : bytes) (e : axes) (a : actual).
+Hypothesis name_given : name <> [].
+Let feedback := feedback_of (snd (checks fq [] (with_expect name e (render a)))).
+
+Lemma feedback_is : feedback = expected_feedback e (project a).
+Proof. unfold feedback. rewrite matrix_feedback_exact_proof by exact name_given. reflexivity. Qed.
+
+Lemma silent_iff_match_proof : feedback = [] <-> project a = e.
+Proof. rewrite feedback_is. apply expected_feedback_nil. Qed.
+
+Lemma names_each_aspect_proof : forall A,
+  deviates A e (project a) <-> exists k, In k feedback /\ aspect_of k = Some A.
+Proof. intros A. rewrite feedback_is. symmetry. apply expected_asp. Qed.
+
+Lemma only_deviations_named_proof : forall k,
+  In k feedback -> exists A, aspect_of k = Some A /\ deviates A e (project a).
+Proof.
+  intros k. rewrite feedback_is. intros I.
+  pose proof (expected_all_aspect e (project a)) as H. rewrite forallb_forall in H.
+  specialize (H k I). unfold has_aspect in H. destruct (aspect_of k) as [A|] eqn:E; [|discriminate].
+  exists A. split; [reflexivity|]. apply expected_asp. exists k. auto.
+Qed.
+End MatrixTheorems.
+
+(* ====================================================================== *)
+(* H. the timeout header through referenceServerChecks                    *)
+(* ====================================================================== *)
+Definition no_timeout (f : fb) : Prop := forall k, In k f -> is_timeout_kind k = false.
+
+Lemma no_timeout_plain f : all_plain f -> no_timeout f.
+Proof.
+  intros P k I. apply (plain_in _ _ P) in I. destruct k; try reflexivity; discriminate.
+Qed.
+Lemma no_timeout_app a b : no_timeout a -> no_timeout b -> no_timeout (a ++ b).
+Proof. intros A B k I. apply in_app_or in I as [I|I]; auto. Qed.
+Lemma no_timeout_rep c n : no_timeout (rep_part c n).
+Proof. unfold rep_part. intros k I. destruct (0 <? count_of c n); [destruct I as [<-|[]]; reflexivity|destruct I]. Qed.
+Lemma no_timeout_trl r : no_timeout (trl_part r).
+Proof. unfold trl_part. intros k I. destruct (0 <? trailer_keys r); [destruct I as [<-|[]]; reflexivity|destruct I]. Qed.
+
+Lemma timeout_in_middle a ft b : no_timeout a -> no_timeout b ->
+  ((exists k, In k (a ++ ft ++ b) /\ is_timeout_kind k = true) <-> (exists k, In k ft /\ is_timeout_kind k = true)).
+Proof.
+  intros A B. split.
+  - intros (k & I & K). exists k. split; [|exact K].
+    apply in_app_or in I as [I|I]; [apply A in I; congruence|].
+    apply in_app_or in I as [I|I]; [exact I|apply B in I; congruence].
+  - intros (k & I & K). exists k. split; [|exact K]. apply in_or_app. right. apply in_or_app. left. exact I.
+Qed.
+
+Lemma value_nonneg ds : digits ds -> 0 <= value ds.
+Proof. intros [_ D]. apply (value_bounds ds D). Qed.
+
+Lemma saturate_nonneg z : 0 <= z -> 0 <= saturate z.
+Proof. unfold saturate, max_duration. intros H. apply Z.min_glb; [exact H|]. cbn. lia. Qed.
+
+Lemma timeout_is_nonneg p s d : timeout_is p s d -> 0 <= d.
+Proof.
+  assert (G : grpc_timeout_is s d -> 0 <= d).
+  { intros (ds & u & ns & -> & D & _ & U & ->). apply saturate_nonneg.
+    pose proof (value_nonneg ds D).
+    destruct (unit_ns_cases u ns U) as [[_ ->]|[[_ ->]|[[_ ->]|[[_ ->]|[[_ ->]|[_ ->]]]]]]; lia. }
+  destruct p; cbn [timeout_is]; auto.
+  intros [[D _] ->]. apply saturate_nonneg. pose proof (value_nonneg s D). lia.
+Qed.
+
+Lemma timeout_is_fun p s d d' : timeout_is p s d -> timeout_is p s d' -> d = d'.
+Proof.
+  destruct p; cbn [timeout_is]; try apply grpc_timeout_is_fun. intros [_ ->] [_ ->]. reflexivity.
+Qed.
+
+Lemma enum_announced r p : announces r p ->
+  enum_value (lit "x-expect-protocol") (x_protocol r) c12_protocols =
+  (Some (protocol_num p), dup_header (lit "x-expect-protocol") (x_protocol r)).
+Proof. unfold announces, enum_value, first. intros ->. destruct p; reflexivity. Qed.
+
+Section Handled.
+Variable fq : Z -> Z -> Z.
+Hypothesis fq_ok : float_quot_ok fq.
+
+Definition extract_one (p : protocol) (s : bytes) : option Z * fb :=
+  match p with PConnect => extract_connect s | _ => extract_grpc fq s end.
+Definition header_name (p : protocol) : bytes :=
+  match p with PConnect => lit "connect-timeout-ms" | _ => lit "grpc-timeout" end.
+
+Lemma extract_timeout_uniform p r :
+  extract_timeout fq (protocol_num p) r =
+  match timeout_header p r with
+  | [] => (None, [], r)
+  | s :: _ => (fst (extract_one p s), dup_header (header_name p) (timeout_header p r) ++ snd (extract_one p s),
+               without_timeout p r)
+  end.
+Proof.
+  destruct p; cbn [protocol_num timeout_header extract_one header_name without_timeout]; unfold extract_timeout;
+    cbn [Z.eqb Pos.eqb orb].
+  - destruct (connect_timeout r) as [|s rest]; [reflexivity|]. cbn [present first hd].
+    destruct (extract_connect s). reflexivity.
+  - destruct (grpc_timeout r) as [|s rest]; [reflexivity|]. cbn [present first hd].
+    destruct (extract_grpc fq s). reflexivity.
+  - destruct (grpc_timeout r) as [|s rest]; [reflexivity|]. cbn [present first hd].
+    destruct (extract_grpc fq s). reflexivity.
+Qed.
+
+Lemma extract_one_total p s :
+  (exists d, timeout_is p s d /\ extract_one p s = (Some d, [])) \/
+  ((~ exists d, timeout_is p s d) /\ exists k, is_timeout_kind k = true /\ extract_one p s = (None, [k])).
+Proof.
+  destruct p; cbn [extract_one timeout_is]; try apply (extract_grpc_total fq fq_ok).
+  destruct (nonempty_digits s) eqn:ND.
+  - destruct (Nat.le_gt_cases (length s) 10) as [L|L].
+    + left. exists (connect_duration s). apply nonempty_digits_iff in ND.
+      split; [split; [split; assumption|reflexivity]|]. apply extract_connect_ok. split; assumption.
+    + right. split; [intros (d & [[_ L'] _]); lia|]. apply extract_connect_bad. intros [_ L']. lia.
+  - right. split.
+    + intros (d & [[D _] _]). apply nonempty_digits_iff in D. congruence.
+    + apply extract_connect_bad. intros [D _]. apply nonempty_digits_iff in D. congruence.
+Qed.
+
+Lemma timeout_handled_proof : forall c r p,
+  name_of r <> [] -> announces r p ->
+  exists f t r',
+    snd (checks fq c r) = Served (name_of r) f t r' /\
+    match timeout_header p r with
+    | [] => t = None /\ r' = r /\ (forall k, In k f -> is_timeout_kind k = false)
+    | s :: _ =>
+      r' = without_timeout p r /\ timeout_header p r' = [] /\
+      (forall d, t = Some d <-> timeout_is p s d) /\
+      ((exists k, In k f /\ is_timeout_kind k = true) <-> ~ exists d, timeout_is p s d)
+    end /\
+    echo_ms (Served (name_of r) f t r') = option_map (fun d => d / 1000000) t.
+Proof.
+  intros c r p NE AN. rewrite checks_served by exact NE. unfold served, pro_part.
+  rewrite (enum_announced r p AN), extract_timeout_uniform.
+  pose proof (no_timeout_app _ _ (no_timeout_rep c (name_of r))
+                (no_timeout_app _ _ (no_timeout_plain _ (plain_ver_part r))
+                   (no_timeout_app _ _ (no_timeout_plain _ (plain_dup_header (lit "x-expect-protocol") (x_protocol r)))
+                      (no_timeout_plain _ (plain_protocol (protocol_num p) r))))) as Before.
+  assert (After : forall r', no_timeout (cod_part r' ++ cmp_part r' ++ check_tls r' ++ check_method r' ++ trl_part r')).
+  { intros r'.
+    apply no_timeout_app; [apply no_timeout_plain, plain_cod_part|].
+    apply no_timeout_app; [apply no_timeout_plain, plain_cmp_part|].
+    apply no_timeout_app; [apply no_timeout_plain, plain_tls|].
+    apply no_timeout_app; [apply no_timeout_plain, plain_method|apply no_timeout_trl]. }
+  destruct (timeout_header p r) as [|s rest] eqn:HD.
+  - (* no timeout header *)
+    eexists _, None, r. cbn [snd]. split; [reflexivity|]. split; [|reflexivity].
+    split; [reflexivity|]. split; [reflexivity|].
+    rewrite app_nil_r.
+    replace (rep_part c (name_of r) ++ ver_part r ++ (dup_header (lit "x-expect-protocol") (x_protocol r) ++ check_protocol (protocol_num p) r) ++ cod_part r ++ cmp_part r ++ check_tls r ++ check_method r ++ trl_part r)
+      with ((rep_part c (name_of r) ++ ver_part r ++ dup_header (lit "x-expect-protocol") (x_protocol r) ++ check_protocol (protocol_num p) r) ++ cod_part r ++ cmp_part r ++ check_tls r ++ check_method r ++ trl_part r)
+      by (rewrite <- !app_assoc; reflexivity).
+    apply no_timeout_app; [exact Before|apply After].
+  - (* a timeout header with first value s *)
+    set (r' := without_timeout p r).
+    set (dupT := dup_header (header_name p) (s :: rest)).
+    assert (Gone : timeout_header p r' = []) by (subst r'; destruct p; reflexivity).
+    assert (Shape : forall t f0, extract_one p s = (t, f0) ->
+      (exists k, In k (rep_part c (name_of r) ++ ver_part r ++
+                       (dup_header (lit "x-expect-protocol") (x_protocol r) ++ check_protocol (protocol_num p) r ++ dupT ++ f0) ++
+                       cod_part r' ++ cmp_part r' ++ check_tls r' ++ check_method r' ++ trl_part r') /\ is_timeout_kind k = true) <->
+      (exists k, In k f0 /\ is_timeout_kind k = true)).
+    { intros t f0 _.
+      replace (rep_part c (name_of r) ++ ver_part r ++
+               (dup_header (lit "x-expect-protocol") (x_protocol r) ++ check_protocol (protocol_num p) r ++ dupT ++ f0) ++
+               cod_part r' ++ cmp_part r' ++ check_tls r' ++ check_method r' ++ trl_part r')
+        with (((rep_part c (name_of r) ++ ver_part r ++ dup_header (lit "x-expect-protocol") (x_protocol r) ++
+                check_protocol (protocol_num p) r) ++ dupT) ++ f0 ++
+              (cod_part r' ++ cmp_part r' ++ check_tls r' ++ check_method r' ++ trl_part r'))
+        by (rewrite <- !app_assoc; reflexivity).
+      apply timeout_in_middle; [|apply After].
+      apply no_timeout_app; [exact Before|]. apply no_timeout_plain, plain_dup_header. }
+    destruct (extract_one_total p s) as [(d0 & T & E)|(NT & k0 & K0 & E)]; rewrite E; cbn [fst snd].
+    + eexists _, (Some d0), r'. split; [reflexivity|]. split.
+      * split; [reflexivity|]. split; [exact Gone|]. split.
+        -- intros d. split; [intros H; inversion H; subst; exact T|].
+           intros T'. rewrite (timeout_is_fun p s d d0 T' T). reflexivity.
+        -- rewrite (Shape _ _ E). split.
+           ++ intros (k & [] & _).
+           ++ intros N. exfalso. apply N. exists d0. exact T.
+      * cbn [echo_ms option_map]. unfold ms_ns. rewrite Z.quot_div_nonneg; [reflexivity| |lia].
+        apply (timeout_is_nonneg p s d0 T).
+    + eexists _, None, r'. split; [reflexivity|]. split.
+      * split; [reflexivity|]. split; [exact Gone|]. split.
+        -- intros d. split; [discriminate|]. intros T. exfalso. apply NT. exists d. exact T.
+        -- rewrite (Shape _ _ E). split; [intros _; exact NT|].
+           intros _. exists k0. split; [left; reflexivity|exact K0].
+      * reflexivity.
+Qed.
+End Handled.
+
+(* the exact quotient, which the extracted model uses, is one of the admissible conversions *)
+Lemma float_quot_ok_exact : float_quot_ok Z.quot.
+Proof. intros t u _. split; [rewrite Z.sub_diag; cbn; lia|reflexivity]. Qed.
